@@ -55,6 +55,7 @@ Inductive res :=
 Inductive point :=
 | PtFinish | PtInsBeforeSend | PtGetAfterPush | PtRemBeforeSend | PtWaitAfterSend | PtWaitBeforeBlock
 | PtClearBeforeBlock | PtCloseAfterFlag | PtCloseBeforeStop | PtCloseBeforePolicy | PtPolCloseBeforeStop
+| PtPolCloseAfterStop
 | PtProcLoop | PtProcNewAfterAdd | PtProcNewAfterStore | PtProcNewVictim | PtProcDelAfterPolicy
 | PtProcClearAfterDrain | PtProcClearAfterPolicy | PtProcClearAfterStore
 | PtProcTickKey | PtProcTickAfterPolicy | PtProcExit
@@ -93,7 +94,8 @@ Inductive ccont :=
 | KCloseBeforePolicy
 | KPolCloseBeforeStop
 | KPolCloseStopOffered
-| KPolCloseStopTaken.
+| KPolCloseStopTaken
+| KPolCloseAfterStop.
 
 (* where the processor is inside its current loop iteration *)
 Inductive ppc :=
@@ -105,7 +107,7 @@ Inductive ppc :=
 | PClearAfterDrain (sig : N)
 | PClearAfterPolicy (sig : N)
 | PClearAfterStore (sig : N)
-| PTickKey (rest : amap N) (acc : list cbk)
+| PTickKey (k c : N) (rest : amap N) (acc : list cbk)
 | PTickAfterPolicy (k c : N) (cost : Z) (rest : amap N) (acc : list cbk)
 | PExited.
 
@@ -385,12 +387,13 @@ Definition continue_client (c : cfg) (st : cstate) (a : N) : step_result :=
       | WExited => StepOk (set_client st a KIdle) (mk_out PtFinish [] (RUnit false))
       | WIdle =>
           if s_pol_stop_msgs st <? stop_cap c then
-            StepOk (set_client (upd_pol_closed (upd_pol_stop_msgs st (s_pol_stop_msgs st + 1)) true) a KIdle)
-                   (mk_out PtFinish [] (RUnit true))
+            StepOk (set_client (upd_pol_stop_msgs st (s_pol_stop_msgs st + 1)) a KPolCloseAfterStop)
+                   (mk_out PtPolCloseAfterStop [] RNone)
           else StepOk (set_client st a KPolCloseStopOffered) (mk_out PtBlocked [] RNone)
       end
   | KPolCloseStopOffered => StepBlocked
-  | KPolCloseStopTaken =>
+  | KPolCloseStopTaken => StepOk (set_client st a KPolCloseAfterStop) (mk_out PtPolCloseAfterStop [] RNone)
+  | KPolCloseAfterStop =>
       StepOk (set_client (upd_pol_closed st true) a KIdle) (mk_out PtFinish [] (RUnit true))
   end.
 
@@ -435,12 +438,21 @@ Definition next_victim (st : cstate) (vs : list pair) : cstate * point :=
   | v :: r => (upd_pc st (PNewVictim v r), PtProcNewVictim)
   end.
 
-(* after one key of the cleanup iteration: go to the next key the implementation names, or, when the
-   iteration is over, fire the collected on_evict callbacks *)
-Definition tick_next (st : cstate) (rest : amap N) (acc : list cbk) : cstate * out :=
+(* after one key of the cleanup iteration: go on to the next key — the implementation names it (its
+   hash-map iteration order), the model checks that it is one of the keys still to be visited — or,
+   when the iteration is over, fire the collected on_evict callbacks *)
+Definition tick_next (st : cstate) (h : hint) (rest : amap N) (acc : list cbk) : step_result :=
   match rest with
-  | [] => (upd_pc st PIdle, mk_out PtProcLoop acc RNone)
-  | _ => (upd_pc st (PTickKey rest acc), mk_out PtProcTickKey [] RNone)
+  | [] => StepOk (upd_pc st PIdle) (mk_out PtProcLoop acc RNone)
+  | _ =>
+      match h_tick_key h with
+      | None => StepIllegal 30
+      | Some k =>
+          match aget k rest with
+          | None => StepIllegal 31
+          | Some cf => StepOk (upd_pc st (PTickKey k cf (adel k rest) acc)) (mk_out PtProcTickKey [] RNone)
+          end
+      end
   end.
 
 Definition proc_step (c : cfg) (st : cstate) (h : hint) : step_result :=
@@ -468,7 +480,7 @@ Definition proc_step (c : cfg) (st : cstate) (h : hint) : step_result :=
           let st1 := upd_store st0 {| st_map := st_map (s_store st0); st_em := em' |} in
           match due with
           | None => StepOk st1 (mk_out PtProcLoop [] RNone)
-          | Some m => let '(st2, o) := tick_next st1 m [] in StepOk st2 o
+          | Some m => tick_next st1 h m []
           end
       | Some ArmStop =>
           (* sync: a closer is waiting in the rendezvous; async: a stop message is buffered *)
@@ -514,25 +526,16 @@ Definition proc_step (c : cfg) (st : cstate) (h : hint) : step_result :=
   | PClearAfterStore sig =>
       let st1 := if c_metrics c then upd_hist_min (upd_mets st metrics_zero) 0%Z else st in
       StepOk (upd_pc (upd_done st1 (sig :: s_done st1)) PIdle) (mk_out PtProcLoop [] RNone)
-  | PTickKey rest acc =>
-      match h_tick_key h with
-      | None => StepIllegal 30
-      | Some k =>
-          match aget k rest with
-          | None => StepIllegal 31
-          | Some cf =>
-              let rest' := adel k rest in
-              match st_expiration (s_store st) k with
-              | Some t =>
-                  if negb (t_is_zero t) && t_is_expired (s_now st) t then
-                    let cost := match aget k (sl_kc (s_slfu st)) with Some x => x | None => (-1)%Z end in
-                    let '(s', mets) := pol_remove (s_slfu st) k in
-                    StepOk (upd_pc (emit c (upd_slfu st s') mets) (PTickAfterPolicy k cf cost rest' acc))
-                           (mk_out PtProcTickAfterPolicy [] RNone)
-                  else let '(st1, o) := tick_next st rest' acc in StepOk st1 o
-              | None => let '(st1, o) := tick_next st rest' acc in StepOk st1 o
-              end
-          end
+  | PTickKey k cf rest acc =>
+      match st_expiration (s_store st) k with
+      | Some t =>
+          if negb (t_is_zero t) && t_is_expired (s_now st) t then
+            let cost := match aget k (sl_kc (s_slfu st)) with Some x => x | None => (-1)%Z end in
+            let '(s', mets) := pol_remove (s_slfu st) k in
+            StepOk (upd_pc (emit c (upd_slfu st s') mets) (PTickAfterPolicy k cf cost rest acc))
+                   (mk_out PtProcTickAfterPolicy [] RNone)
+          else tick_next st h rest acc
+      | None => tick_next st h rest acc
       end
   | PTickAfterPolicy k cf cost rest acc =>
       let '(sto, prev) := st_try_remove (s_store st) k cf in
@@ -540,7 +543,7 @@ Definition proc_step (c : cfg) (st : cstate) (h : hint) : step_result :=
                   | Some e => acc ++ [CbEvict k (e_conflict e) (e_val e) cost]
                   | None => acc
                   end in
-      let '(st1, o) := tick_next (upd_store st sto) rest acc' in StepOk st1 o
+      tick_next (upd_store st sto) h rest acc'
   end.
 
 (* ---- policy worker ---- *)
